@@ -32,6 +32,37 @@ FSUM_R = z3.Function("FSUM_R", AR, I, Rl)
 LASTNZ_I = z3.Function("LASTNZ_I", AI, I, I)
 LASTNZ_R = z3.Function("LASTNZ_R", AR, I, I)
 UF_LOG = z3.Function("uf_log", Rl, Rl)
+AMAX_R = z3.Function("AMAX_R", z3.ArraySort(I, AR), I, I, Rl)      # maximum over an n0 x n1 float matrix (uninterpreted + bounds)
+
+
+def amax_of(ex, mat):
+    """M.max() of a non-empty 2-d float array: AMAX_R(contents, n0, n1) with `every entry <= it` as a fact (that it is attained
+    is not needed by any contract so far); the specification writes amax(M) and gets the same term."""
+    if mat.ndim != 2 or mat.elem is None or mat.elem.kind != "float":
+        raise Undecidable("max() of this array")
+    t = AMAX_R(ex.heap[mat.id], mat.shape[0], mat.shape[1])
+    qi, qj = z3.Int(f"mx0!{next(ex.n)}"), z3.Int(f"mx1!{next(ex.n)}")
+    ex.facts.append(z3.ForAll([qi, qj], z3.Implies(z3.And(qi >= 0, qi < mat.shape[0], qj >= 0, qj < mat.shape[1]),
+                                                    ex.select(mat, [qi, qj]) <= t)))
+    return t
+
+
+def matmul2(ex, a, b, node):
+    """A @ B of two 2-d arrays: element [i, j] = FSUM(lambda k. A[i, k] * B[k, j], n)"""
+    ex.oblige("shape", f"{symex.src_of(node)}: inner extents of the matrix product agree", a.shape[1] == b.shape[0], node)
+    ka = "float" if (a.elem is not None and a.elem.kind == "float") else "int"
+    kb = "float" if (b.elem is not None and b.elem.kind == "float") else "int"
+    kind = "float" if "float" in (ka, kb) else "int"
+    qi, qj = z3.Int(f"mm0!{next(ex.n)}"), z3.Int(f"mm1!{next(ex.n)}")
+    k = fresh_idx()
+    body = _elem_arith(ex, ast.Mult(), ex.select(a, [qi, k]), ka, ex.select(b, [k, qj]), kb, node)[0]
+    el = mk_fsum(body, k, a.shape[1], kind == "float", ex)
+    et = symex.scalar_type("FLOAT64TYPE_t" if kind == "float" else "INT64TYPE_t")
+    r = symex.ArrObj(f"matmul_{next(ex.n)}", et, 2, ex.fm, shape=[a.shape[0], b.shape[1]], fresh=True)
+    r.contig = True
+    ex.objs[r.id] = r
+    ex.heap[r.id] = z3.Lambda([qi], z3.Lambda([qj], el))
+    return Val("arr", r, symex.T("arr", elem=et, ndim=2))
 
 
 _FSV = itertools.count()
@@ -264,6 +295,8 @@ def vbinop(ex, op, a, b, node):
             body = _elem_arith(ex, ast.Mult(), x, xk, y, yk, node)[0]
             return mk_fsum(body, i, vec.n, kind == "float", ex)
         return Val("vec", Vec(outer, elem, kind))
+    if isinstance(op, ast.MatMult) and a.k == "arr" and b.k == "arr" and a.t.ndim == 2 and b.t.ndim == 2:
+        return matmul2(ex, a.t, b.t, node)
     if isinstance(op, ast.MatMult):
         if va is None or vb is None or va.present is not None or vb.present is not None:
             raise Undecidable("@ on non-vectors")
@@ -418,6 +451,24 @@ def _ev_call(self, n):
                 return Val("vec", Vec(mat.shape[1 - ax], elem, "float" if isf else "int"))
         if fn in ("np.dot", "numpy.dot") and len(n.args) == 2:
             return vbinop(self, ast.MatMult(), self.ev(n.args[0]), self.ev(n.args[1]), n)
+        if fn in ("np.array", "np.asarray", "numpy.array", "numpy.asarray") and len(n.args) == 1 and not n.keywords:
+            v0 = self.ev(n.args[0])
+            if v0.k == "arr" and v0.t.ndim == 2 and getattr(self.c, "array_inputs_are_arrays", False):
+                return v0           # np.array(M) of an input the contract types as an array: same values (a copy; only read here)
+        if fn in ("np.ones_like", "numpy.ones_like") and len(n.args) == 1 and not n.keywords:
+            v0 = self.ev(n.args[0])
+            if v0.k == "arr" and v0.t.ndim == 2:
+                isf0 = v0.t.elem is not None and v0.t.elem.kind == "float"
+                return self.elementwise(lambda x: self.fm.lit(1) if isf0 else z3.IntVal(1), v0,
+                                        elem="FLOAT64TYPE_t" if isf0 else "INT64TYPE_t")
+        if fn in ("np.linalg.matrix_power", "numpy.linalg.matrix_power") and len(n.args) == 2 and \
+                isinstance(n.args[1], ast.Constant) and isinstance(n.args[1].value, int) and 1 <= n.args[1].value <= 4:
+            v0 = self.ev(n.args[0])
+            if v0.k == "arr" and v0.t.ndim == 2:
+                r0 = v0
+                for _ in range(n.args[1].value - 1):       # NumPy multiplies from the left: ((M @ M) @ M) ...
+                    r0 = matmul2(self, r0.t, v0.t, n)
+                return r0
         if fn in ("np.diag", "numpy.diag") and len(n.args) in (1, 2) and not n.keywords:
             # np.diag(M, k) of a 2-d array: the k-th diagonal as a vector (k >= 0: M[i, i+k]; k < 0: M[i-k, i])
             v = self.ev(n.args[0])
@@ -464,7 +515,18 @@ def _ev_call(self, n):
                     return Val("float", tot, PYFLOAT) if isf else Val("int", tot, PYINT)
                 if n.func.attr == "dot" and len(n.args) == 1 and not n.keywords and \
                         (recv.k == "vec" or (recv.k == "arr" and recv.t.ndim in (1, 2))):
-                    return vbinop(self, ast.MatMult(), recv, self.ev(n.args[0]), n)
+                    arg0 = self.ev(n.args[0])
+                    if recv.k == "arr" and recv.t.ndim == 2 and arg0.k in ("int", "float"):
+                        return self.binop(ast.Mult(), recv, arg0, n)       # M.dot(scalar) = M * scalar
+                    return vbinop(self, ast.MatMult(), recv, arg0, n)
+                if n.func.attr == "max" and not n.args and not n.keywords and recv.k == "arr" and recv.t.ndim == 2 \
+                        and recv.t.elem is not None and recv.t.elem.kind == "float":
+                    return Val("float", amax_of(self, recv.t), PYFLOAT)
+                if n.func.attr == "diagonal" and not n.args and not n.keywords and recv.k == "arr" and recv.t.ndim == 2:
+                    mat = recv.t
+                    ln = z3.simplify(z3.If(mat.shape[0] <= mat.shape[1], mat.shape[0], mat.shape[1]))
+                    isf = mat.elem is not None and mat.elem.kind == "float"
+                    return Val("vec", Vec(ln, lambda i, mat=mat: self.select(mat, [i, i]), "float" if isf else "int"))
                 if n.func.attr == "max" and recv.k == "nz0":
                     kw = {k.arg: k.value for k in n.keywords}
                     if set(kw) == {"initial"} and isinstance(kw["initial"], ast.UnaryOp) and isinstance(kw["initial"].op, ast.USub) \
@@ -621,6 +683,11 @@ def _spec_call(self, fn, n):
         return lastnz(self, vec)
     if fn == "log":
         return Val("float", UF_LOG(self.to_float(self.ev(n.args[0]))), PYFLOAT)
+    if fn == "amax":
+        v = self.ev(n.args[0])
+        if v.k != "arr":
+            raise Undecidable("amax of non-array")
+        return Val("float", amax_of(self, v.t), PYFLOAT)
     return _orig_spec_call(self, fn, n)
 
 
